@@ -222,6 +222,11 @@ type profile struct {
 	orderSens bool
 	// finalizeNow: in a leak, with the justification of this very transition finalizing (the leak ends before rewards)
 	finalizeNow bool
+	// zeroStake 1..4: every validator active in the current or next epoch has effective balance 0 (balances below one
+	// increment, hysteresis already applied), so that the active stake sum is around the clamp
+	// get_total_active_balance = max(EFFECTIVE_BALANCE_INCREMENT, sum): 1 = sum 0; 2 = exactly one increment (one
+	// validator); 3 = one increment - 1 Gwei (one validator; not a multiple of the increment); 4 = two increments
+	zeroStake int
 }
 
 func randProfile(rng *rand.Rand) profile {
@@ -425,6 +430,30 @@ func genState(rng *rand.Rand, sp *common.Spec, forkIdx int, slot uint64, n int, 
 
 	if pr.orderSens {
 		orderSensitive(rng, sp, s, forkIdx, cur)
+	}
+	if pr.zeroStake > 0 {
+		first := true
+		for i := range s.Validators {
+			v := &s.Validators[i]
+			if (v.ActivationEpoch <= cur && cur < v.ExitEpoch) || (v.ActivationEpoch <= cur+1 && cur+1 < v.ExitEpoch) {
+				v.EffectiveBalance = 0
+				s.Balances[i] = uint64(rng.Int63n(int64(inc)))
+				if rng.Intn(4) == 0 {
+					s.Balances[i] = 0
+				}
+				if first && v.ActivationEpoch <= cur && cur < v.ExitEpoch {
+					first = false
+					switch pr.zeroStake {
+					case 2:
+						v.EffectiveBalance, s.Balances[i] = inc, inc
+					case 3:
+						v.EffectiveBalance, s.Balances[i] = inc-1, inc-1
+					case 4:
+						v.EffectiveBalance, s.Balances[i] = 2*inc, 2*inc
+					}
+				}
+			}
+		}
 	}
 
 	// ---- finality
@@ -956,9 +985,17 @@ func gen(o hreg.Opts, w *bufio.Writer) error {
 			if i%6 == 4 {
 				pr.finalizeNow, pr.leak, pr.partDensity = true, true, 100
 			}
+			if i%5 == 2 {
+				// around the clamp of the total active balance (i%5 == 2 also rotates through the presets: i = 2, 7, 12, ...)
+				pr.zeroStake = 1 + (i/5)%4
+				pr.orderSens = false
+			}
 			s := genState(rng, sp, forkIdx, epoch*spe+spe-1, n, pr, st)
 			st.Add("spec", spName)
 			st.Add("fork", s.Fork)
+			if pr.zeroStake > 0 {
+				st.Add("active-stake-around-clamp", s.Fork+":"+[]string{"", "sum-0", "one-increment", "one-increment-minus-1", "two-increments"}[pr.zeroStake])
+			}
 			if pr.orderSens {
 				st.Add("stage-order-sensitive-state", s.Fork)
 			}
@@ -1011,8 +1048,12 @@ func gen(o hreg.Opts, w *bufio.Writer) error {
 		if rng.Intn(2) == 0 {
 			slot = epoch*spe + spe - 1
 		}
-		pr.orderSens = i%3 == 1 // the run crosses the end of this epoch (span >= 1 slot from its last or an earlier slot)
-		if pr.orderSens {
+		if i%8 == 5 {
+			pr.zeroStake = 1 + (i/8)%4
+			st.Add("active-stake-around-clamp-slots", flat.Forks[forkIdx])
+		}
+		pr.orderSens = i%3 == 1 && pr.zeroStake == 0 // the run crosses the end of this epoch (span >= 1 slot from its last or an earlier slot)
+		if pr.orderSens || pr.zeroStake > 0 {
 			slot = epoch*spe + spe - 1 - uint64(rng.Intn(2))
 			st.Add("stage-order-sensitive-state-slots", flat.Forks[forkIdx])
 		}
@@ -1024,7 +1065,7 @@ func gen(o hreg.Opts, w *bufio.Writer) error {
 		if crossBatch && span < spe {
 			span = spe + uint64(rng.Intn(int(2*spe)))
 		}
-		if pr.orderSens && span < 2 {
+		if (pr.orderSens || pr.zeroStake > 0) && span < 2 {
 			span = 2
 		}
 		target := slot + span
